@@ -98,7 +98,7 @@ class C04(props.Prop):
         spec['damage'] = dmg
         spec['launcher'] = 'bin' if rng.random() < 0.15 else 'main'
         scen = rng.choice(['none', 'none', 'usage', 'mutator', 'mutator',
-                           'cand_io', 'interrupt', 'memerr'])
+                           'cand_io', 'interrupt', 'memerr', 'worker_exc'])
         spec['scenario'] = scen
         if scen == 'usage':
             u = rng.choice(['no_infile', 'no_cmd', 'cmd_not_exec',
@@ -133,6 +133,23 @@ class C04(props.Prop):
                     'sticky': rng.random() < 0.3,
                 }
             }
+        elif scen == 'worker_exc':
+            # MemoryError (or another exception) inside a worker / the task
+            # feeder at its n-th yield point
+            spec['faults'] = {
+                'actor_exc': {
+                    # only what can really happen anywhere in a worker:
+                    # memory exhaustion (an exception raised by the manager
+                    # RPC itself would be an environment fault outside the
+                    # property)
+                    'actor': 'w',
+                    'nth': rng.choice([1, 1, 2, 3, 5, 10, 30]),
+                    'exc': 'MemoryError',
+                }
+            }
+            if spec['jobs'] == 1 and rng.random() < 0.7:
+                spec['opts'] += ['-j', '2']
+                spec['jobs'] = 2
         elif scen in ('interrupt', 'memerr'):
             spec['faults'] = {
                 'interrupt': [rng.choice([1, 3, 10, 30, 100, 300, 1000]),
@@ -161,7 +178,11 @@ class C04(props.Prop):
         v.probes['mutator_exceptions_swallowed'] += natural
         fired_mut = rec.counters.get('fault.mutator_exception', 0)
         fired_io = rec.counters.get('fault.cand_io_error', 0)
+        if any(len(e) > 1 and e[1] == 'ACTOR-FAULT' for e in res.log):
+            v.faults['worker_exception'] += 1
         interrupted = 'SIGINT' in [e[1] for e in res.log if len(e) > 1]
+        if scen == 'worker_exc' and '[ddsmt] memory exhausted' in res.stdout:
+            interrupted = True
         if interrupted and scen == 'memerr':
             # a MemoryError may legitimately be absorbed where a candidate is
             # produced or tested (it then costs that candidate only); if it
